@@ -18,6 +18,7 @@ class Reader(object):
         self.py2 = self.ver < (3, 0)
         self.refs = []
         self.strs = []
+        self.open = []
 
     def take(self, n):
         b = self.d[self.p:self.p + n]
@@ -118,9 +119,19 @@ class Reader(object):
             n = self.u8() if c == ")" else self.i32()
             return fill(i, {"t": "tuple", "v": [self.obj() for _ in range(n)]})
         if c == "[":
-            i = reserve()
+            # a list is registered before its items are read (marshal.c does that for the mutable containers), so an
+            # item may refer back to it: such a reference is written as the distance up the path of open containers
+            node = {"t": "list", "v": []}
+            if flag:
+                self.refs.append(node)
             n = self.i32()
-            return fill(i, {"t": "list", "v": [self.obj() for _ in range(n)]})
+            self.open.append(node)
+            try:
+                for _ in range(n):
+                    node["v"].append(self.obj())
+            finally:
+                self.open.pop()
+            return node
         if c in "<>":
             i = reserve()
             n = self.i32()
@@ -128,17 +139,23 @@ class Reader(object):
             items.sort(key=lambda d: json.dumps(d, sort_keys=True))
             return fill(i, {"t": "set" if c == "<" else "frozenset", "v": items})
         if c == "{":
-            i = reserve()
-            items = []
-            while True:
-                k = self.obj()
-                if k is NULL:
-                    break
-                v = self.obj()
-                items.append([k, v])
-            items.sort(key=lambda kv: json.dumps(kv[0], sort_keys=True))
-            return fill(i, {"t": "dict", "v": items})
+            node = {"t": "dict", "v": []}
+            if flag:
+                self.refs.append(node)
+            self.open.append(node)
+            try:
+                while True:
+                    k = self.obj()
+                    if k is NULL:
+                        break
+                    v = self.obj()
+                    node["v"].append([k, v])
+            finally:
+                self.open.pop()
+            node["v"].sort(key=lambda kv: json.dumps(kv[0], sort_keys=True))
+            return node
         if c == "r":
+            # may be a container that is still open: the node itself is returned, loads() renders back-references
             return self.refs[self.i32()]
         if c in "cC":
             i = reserve()
@@ -211,7 +228,31 @@ def loads(data, ver):
     """(canonical tree, bytes consumed)"""
     r = Reader(data, ver)
     t = r.obj()
-    return t, r.p
+    return _render(t, []), r.p
+
+
+def _render(node, path):
+    """the node graph as a tree: a list or dict met again while it is being walked becomes {"t": "cycle", "v": distance
+    up the path of open lists/dicts} - the same convention as gen.canon.canon"""
+    if not isinstance(node, dict):
+        return node
+    t = node.get("t")
+    if t in ("list", "dict"):
+        for k, open_node in enumerate(path):
+            if open_node is node:
+                return {"t": "cycle", "v": len(path) - k}
+        path.append(node)
+        try:
+            if t == "list":
+                return {"t": "list", "v": [_render(e, path) for e in node["v"]]}
+            return {"t": "dict", "v": [[_render(k, path), _render(v, path)] for k, v in node["v"]]}
+        finally:
+            path.pop()
+    if t in ("tuple", "set", "frozenset"):
+        return {"t": t, "v": [_render(e, path) for e in node["v"]]}
+    if t == "code":
+        return {"t": "code", "v": dict((f, _render(v, path)) for f, v in node["v"].items())}
+    return node
 
 
 def comparable(tree, ver):
